@@ -1462,6 +1462,9 @@ namespace link_layer {
         this->reset_encryption();
         this->reset_phy( *this );
 
+        // deliver the events that are queued already, so that the event that ends the connection always finds room
+        this->template handle_connection_events< link_layer< Server, ScheduledRadio, Options... > >();
+
         if ( state_ != state::connecting )
         {
             this->synchronized_connection_event_callback_disconnect();
